@@ -467,44 +467,309 @@ Qed.
 
 (* the completed object is the concatenation of the listed entries' chunk bytes, laid
    out with running offsets: whatever the configuration and the part numbers *)
-Theorem complete_is_listing_concat : forall c d,
-  (forall e, In e (listed c d) -> has_part_suffix (fst e) = true) ->
-  seq_from 0 (f_chunks (completed_file c d)) /\
-  file_bytes (completed_file c d) = concat (map entry_bytes (listed c d)).
+Theorem complete_is_listing_concat : forall d,
+  (forall e, In e (sort_by_number (listed d)) -> has_part_suffix (fst e) = true) ->
+  seq_from 0 (f_chunks (completed_file d)) /\
+  file_bytes (completed_file d) = concat (map entry_bytes (sort_by_number (listed d))).
 Proof.
-  intros c d H. unfold completed_file. simpl f_chunks.
-  destruct (assemble_spec (listed c d) 0 H) as [A1 A2]. split; auto.
+  intros d H. unfold completed_file. simpl f_chunks.
+  destruct (assemble_spec (sort_by_number (listed d)) 0 H) as [A1 A2]. split; auto.
   rewrite file_bytes_seq by exact A1. exact A2.
 Qed.
 
-(* C28, the strongest true statement: the completed object is the concatenation of the
-   uploaded parts in ASCENDING PART-NUMBER order (the last upload of a number wins)
-   unless one of the three triggers holds *)
+(* ---------- sorting the listed entries by part number ---------- *)
+Definition knum (e : list N * file) : N := part_number_of (fst e).
+
+Lemma insert_by_number_in : forall e l x, In x (insert_by_number e l) <-> x = e \/ In x l.
+Proof.
+  intros e. induction l as [|y l IH]; intros x; simpl.
+  - intuition.
+  - destruct (part_number_of (fst y) <? part_number_of (fst e)); simpl; [rewrite IH|]; intuition.
+Qed.
+
+Lemma sort_by_number_in : forall l x, In x (sort_by_number l) <-> In x l.
+Proof.
+  induction l as [|a l IH]; intros x; simpl; [tauto|].
+  rewrite insert_by_number_in, IH. intuition.
+Qed.
+
+Lemma insert_by_number_length : forall e l, length (insert_by_number e l) = S (length l).
+Proof.
+  intros e. induction l as [|y l IH]; simpl; auto.
+  destruct (part_number_of (fst y) <? part_number_of (fst e)); simpl; auto.
+Qed.
+
+Lemma sort_by_number_length : forall l, length (sort_by_number l) = length l.
+Proof. induction l as [|a l IH]; simpl; auto. rewrite insert_by_number_length, IH. reflexivity. Qed.
+
+(* strictly sorted by part number: every element is below everything after it *)
+Fixpoint ssorted (l : updir) : Prop :=
+  match l with
+  | [] => True
+  | a :: r => (forall x, In x r -> knum a < knum x) /\ ssorted r
+  end.
+
+Lemma insert_by_number_ssorted : forall e l, ssorted l -> (forall x, In x l -> knum x <> knum e) ->
+  ssorted (insert_by_number e l).
+Proof.
+  intros e. induction l as [|y l IH]; intros Hs Hd; simpl.
+  - split; [intros x []|exact I].
+  - destruct Hs as [H1 H2]. fold (knum y). fold (knum e).
+    destruct (knum y <? knum e) eqn:E.
+    + apply N.ltb_lt in E. split.
+      * intros x Hx. apply insert_by_number_in in Hx. destruct Hx as [->|Hx]; auto.
+      * apply IH; auto. intros x Hx. apply Hd. right. exact Hx.
+    + apply N.ltb_ge in E. pose proof (Hd y (or_introl eq_refl)) as Hy.
+      split; [|split; auto].
+      intros x [<-|Hx]; [lia|]. specialize (H1 x Hx). lia.
+Qed.
+
+Lemma sort_by_number_ssorted : forall l, NoDup (map knum l) -> ssorted (sort_by_number l).
+Proof.
+  induction l as [|a l IH]; intros Hn; simpl; [exact I|].
+  inversion Hn as [|k ks Hnot Hnd]; subst.
+  apply insert_by_number_ssorted; auto.
+  intros x Hx Hk. rewrite sort_by_number_in in Hx. apply Hnot. rewrite <- Hk. apply in_map. exact Hx.
+Qed.
+
+(* two strictly sorted lists with the same elements are the same list *)
+Lemma ssorted_unique : forall l1 l2, ssorted l1 -> ssorted l2 -> (forall e, In e l1 <-> In e l2) -> l1 = l2.
+Proof.
+  induction l1 as [|a r1 IH]; intros l2 H1 H2 Hm.
+  - destruct l2 as [|b r2]; auto. exfalso. apply (Hm b). left. reflexivity.
+  - destruct l2 as [|b r2]. { exfalso. apply (Hm a). left. reflexivity. }
+    destruct H1 as [A1 A2]. destruct H2 as [B1 B2].
+    assert (Eab : a = b).
+    { destruct (proj1 (Hm a) (or_introl eq_refl)) as [E|Ha]; auto.
+      destruct (proj2 (Hm b) (or_introl eq_refl)) as [E|Hb]; auto.
+      specialize (A1 b Hb). specialize (B1 a Ha). lia. }
+    subst b. f_equal. apply IH; auto.
+    intros e. split; intros He.
+    + destruct (proj1 (Hm e) (or_intror He)) as [E|H]; auto. subst e. specialize (A1 a He). lia.
+    + destruct (proj2 (Hm e) (or_intror He)) as [E|H]; auto. subst e. specialize (B1 a He). lia.
+Qed.
+
+(* ---------- the directory is strictly sorted by name ---------- *)
+Fixpoint dsorted (d : updir) : Prop :=
+  match d with
+  | [] => True
+  | a :: r => (forall x, In x r -> lex_cmp (fst a) (fst x) = Lt) /\ dsorted r
+  end.
+
+Lemma dir_put_dsorted : forall nm f d, dsorted d -> dsorted (dir_put nm f d).
+Proof.
+  intros nm f. induction d as [|[m g] d IH]; intros H; simpl.
+  - split; [intros x []|exact I].
+  - destruct H as [H1 H2]. destruct (lex_cmp nm m) eqn:E.
+    + apply lex_cmp_eq in E. subst. split; auto.
+    + split; [|split; auto]. intros x [<-|Hx]; [exact E|].
+      apply lex_lt_trans with m; [exact E|apply (H1 x Hx)].
+    + split; [|apply IH; exact H2].
+      intros x Hx. destruct (dir_put_in _ _ _ _ Hx) as [->|Hx']; [|apply (H1 x Hx')].
+      simpl. rewrite lex_cmp_antisym, E. reflexivity.
+Qed.
+
+Lemma dir_of_dsorted : forall c h, dsorted (dir_of c h).
+Proof.
+  intros c h. unfold dir_of.
+  assert (G : forall h d, dsorted d -> dsorted (fold_left (dir_step c) h d)).
+  { induction h0 as [|p h0 IH]; intros d Hd; simpl; auto. apply IH. apply dir_put_dsorted. exact Hd. }
+  apply G. exact I.
+Qed.
+
+Lemma lex_lt_neq : forall a b, lex_cmp a b = Lt -> a <> b.
+Proof. intros a b H E. subst. rewrite lex_cmp_refl in H. discriminate. Qed.
+
+Lemma dir_put_mem : forall nm f d e, dsorted d ->
+  (In e (dir_put nm f d) <-> e = (nm, f) \/ (In e d /\ fst e <> nm)).
+Proof.
+  intros nm f. induction d as [|[m g] d IH]; intros e H; simpl.
+  - intuition.
+  - destruct H as [H1 H2]. destruct (lex_cmp nm m) eqn:E.
+    + apply lex_cmp_eq in E. subst m. simpl. split.
+      * intros [<-|He]; auto. right. split; auto. apply not_eq_sym. apply lex_lt_neq. apply (H1 e He).
+      * intros [->|[[<-|He] Hn]]; auto. simpl in Hn. congruence.
+    + simpl. split.
+      * intros [<-|[<-|He]]; auto.
+        -- right. split; auto. simpl. apply not_eq_sym. apply lex_lt_neq. exact E.
+        -- right. split; auto. apply not_eq_sym. apply lex_lt_neq.
+           apply lex_lt_trans with m; [exact E|apply (H1 e He)].
+      * intros [->|[He _]]; auto.
+    + simpl. rewrite (IH e H2). split.
+      * intros [<-|[->|[He Hn]]]; auto. right. split; auto. simpl. intros Em. subst m.
+        rewrite lex_cmp_refl in E. discriminate.
+      * intros [->|[[<-|He] Hn]]; auto.
+Qed.
+
+(* ---------- parts_put as a set operation ---------- *)
+Lemma ascending_head_lt : forall a r, ascending (a :: r) -> forall x, In x r -> fst a < fst x.
+Proof.
+  intros a r. revert a. induction r as [|b r IH]; intros a H x Hx; [contradiction|].
+  cbn [ascending] in H. destruct H as [H1 H2]. destruct Hx as [<-|Hx]; auto.
+  specialize (IH b H2 x Hx). lia.
+Qed.
+
+Lemma parts_put_mem : forall n b l q, ascending l ->
+  (In q (parts_put n b l) <-> q = (n, b) \/ (In q l /\ fst q <> n)).
+Proof.
+  intros n b. induction l as [|[m x] l IH]; intros q H; simpl.
+  - intuition.
+  - assert (Hl : ascending l) by (cbn [ascending] in H; destruct H; auto).
+    pose proof (ascending_head_lt (m, x) l H) as Hlt. simpl in Hlt.
+    destruct (n =? m) eqn:E1.
+    + apply N.eqb_eq in E1. subst m. simpl. split.
+      * intros [<-|Hq]; auto. right. split; auto. specialize (Hlt q Hq). lia.
+      * intros [->|[[<-|Hq] Hn]]; auto. simpl in Hn. congruence.
+    + apply N.eqb_neq in E1. destruct (n <? m) eqn:E2.
+      * apply N.ltb_lt in E2. simpl. split.
+        -- intros [<-|[<-|Hq]]; auto.
+           right. split; auto. specialize (Hlt q Hq). intros Hqn. rewrite Hqn in Hlt. lia.
+        -- intros [->|[Hq _]]; auto.
+      * simpl. rewrite (IH q Hl). split.
+        -- intros [<-|[->|[Hq Hn]]]; auto.
+        -- intros [->|[[<-|Hq] Hn]]; auto.
+Qed.
+
+Lemma dir_of_snoc : forall c h p, dir_of c (h ++ [p]) = dir_step c (dir_of c h) p.
+Proof. intros. unfold dir_of. rewrite fold_left_app. reflexivity. Qed.
+
+Lemma parts_of_snoc : forall h p, parts_of (h ++ [p]) = parts_step (parts_of h) p.
+Proof. intros. unfold parts_of. rewrite fold_left_app. reflexivity. Qed.
+
+Lemma parts_of_numbers : forall h x, In x (map fst (parts_of h)) -> In x (map fst h).
+Proof.
+  intros h x H. unfold parts_of in H.
+  assert (G : forall h l, In x (map fst (fold_left parts_step h l)) -> In x (map fst h) \/ In x (map fst l)).
+  { induction h0 as [|q h0 IH]; intros l Hx; simpl in *; auto.
+    destruct (IH _ Hx) as [I|I]; auto. unfold parts_step in I.
+    destruct (parts_put_numbers _ _ _ _ I) as [->|I']; auto. }
+  destruct (G h [] H) as [I|[]]. exact I.
+Qed.
+
+Lemma part_name_inj : forall n m, n <= 10000 -> m <= 10000 -> part_name n = part_name m -> n = m.
+Proof.
+  intros n m Hn Hm E. destruct (part_name_facts n Hn) as [F1 _]. destruct (part_name_facts m Hm) as [F2 _].
+  rewrite <- F1, <- F2, E. reflexivity.
+Qed.
+
+(* the directory and the ascending part list hold the same entries *)
+Lemma dir_of_mem : forall c h, (forall n, In n (map fst h) -> n <= 10000) ->
+  forall e, In e (dir_of c h) <-> In e (map (enc c) (parts_of h)).
+Proof.
+  intros c. induction h as [|p h IH] using rev_ind; intros Hr e.
+  - simpl. tauto.
+  - assert (Hr' : forall n, In n (map fst h) -> n <= 10000).
+    { intros n Hn. apply Hr. rewrite map_app. apply in_or_app. auto. }
+    assert (Hp : fst p <= 10000).
+    { apply Hr. rewrite map_app. apply in_or_app. right. left. reflexivity. }
+    rewrite dir_of_snoc, parts_of_snoc. unfold dir_step, parts_step.
+    rewrite (dir_put_mem _ _ _ e (dir_of_dsorted c h)). rewrite (IH Hr' e).
+    rewrite !in_map_iff. split.
+    + intros [->|[[q [Eq Hq]] Hn]].
+      * exists (fst p, snd p). split; [reflexivity|]. apply parts_put_mem; [apply parts_of_ascending|]. auto.
+      * exists q. split; auto. apply parts_put_mem; [apply parts_of_ascending|]. right. split; auto.
+        intros En. apply Hn. rewrite <- Eq. unfold enc. simpl. rewrite En. reflexivity.
+    + intros [q [Eq Hq]]. apply parts_put_mem in Hq; [|apply parts_of_ascending].
+      destruct Hq as [->|[Hq Hn]].
+      * left. rewrite <- Eq. reflexivity.
+      * right. split; [exists q; auto|]. rewrite <- Eq. unfold enc. simpl. intros En. apply Hn.
+        apply part_name_inj; auto. apply Hr'. apply parts_of_numbers. apply in_map. exact Hq.
+Qed.
+
+Lemma knum_enc : forall c q, fst q <= 10000 -> knum (enc c q) = fst q.
+Proof. intros c q H. unfold knum, enc. simpl. apply part_name_facts. exact H. Qed.
+
+Lemma parts_ssorted : forall c l, ascending l -> (forall q, In q l -> fst q <= 10000) -> ssorted (map (enc c) l).
+Proof.
+  intros c. induction l as [|a l IH]; intros Ha Hr; simpl; [exact I|].
+  split.
+  - intros x Hx. apply in_map_iff in Hx. destruct Hx as [q [<- Hq]].
+    rewrite !knum_enc by (apply Hr; simpl; auto). apply (ascending_head_lt a l Ha q Hq).
+  - apply IH; [cbn [ascending] in Ha; destruct Ha; auto|]. intros q Hq. apply Hr. right. exact Hq.
+Qed.
+
+(* names are distinct in a name-sorted directory, hence so are the part numbers *)
+Lemma dsorted_keys_nodup : forall d, dsorted d ->
+  (forall e, In e d -> exists n, n <= 10000 /\ fst e = part_name n) -> NoDup (map knum d).
+Proof.
+  induction d as [|a d IH]; intros Hs Hn; simpl; constructor.
+  - destruct Hs as [H1 _]. intros Hin. apply in_map_iff in Hin. destruct Hin as [x [Ek Hx]].
+    destruct (Hn a (or_introl eq_refl)) as [n [Hn1 Hn2]]. destruct (Hn x (or_intror Hx)) as [m [Hm1 Hm2]].
+    unfold knum in Ek. rewrite Hn2, Hm2 in Ek.
+    destruct (part_name_facts n Hn1) as [F1 _]. destruct (part_name_facts m Hm1) as [F2 _].
+    rewrite F1, F2 in Ek. subst m. specialize (H1 x Hx). rewrite Hn2, Hm2, lex_cmp_refl in H1. discriminate.
+  - destruct Hs as [_ H2]. apply IH; auto. intros e He. apply Hn. right. exact He.
+Qed.
+
+(* after the numeric sort the entries are the parts in ascending part-number order,
+   for every set of part numbers up to 10000 — including 10000 next to 1001..9999 *)
+Theorem sorted_dir_is_parts : forall c h, (forall n, In n (map fst h) -> n <= 10000) ->
+  sort_by_number (dir_of c h) = map (enc c) (parts_of h).
+Proof.
+  intros c h Hr. apply ssorted_unique.
+  - apply sort_by_number_ssorted. apply dsorted_keys_nodup; [apply dir_of_dsorted|].
+    intros e He. assert (Hn : In (fst e) (map fst (dir_of c h))) by (apply in_map; exact He).
+    apply dir_of_names in Hn. apply in_map_iff in Hn. destruct Hn as [p [Ep Hp]].
+    exists (fst p). split; auto. apply Hr. apply in_map. exact Hp.
+  - apply parts_ssorted; [apply parts_of_ascending|].
+    intros q Hq. apply Hr. apply parts_of_numbers. apply in_map. exact Hq.
+  - intros e. rewrite sort_by_number_in. apply dir_of_mem. exact Hr.
+Qed.
+
+(* an ascending list of numbers between lo and hi has at most hi + 1 - lo elements *)
+Lemma ascending_length : forall l lo hi, ascending l ->
+  (forall x, In x l -> lo <= fst x /\ fst x <= hi) -> N.of_nat (length l) <= hi + 1 - lo.
+Proof.
+  induction l as [|a r IH]; intros lo hi H Hb; simpl length.
+  - lia.
+  - destruct (Hb a (or_introl eq_refl)) as [B1 B2].
+    assert (Hr : forall x, In x r -> fst a + 1 <= fst x /\ fst x <= hi).
+    { intros x Hx. pose proof (ascending_head_lt a r H x Hx). destruct (Hb x (or_intror Hx)). lia. }
+    assert (Ha : ascending r) by (cbn [ascending] in H; destruct H; auto).
+    specialize (IH (fst a + 1) hi Ha Hr). rewrite Nat2N.inj_succ. lia.
+Qed.
+
+(* the explicit listing limit never cuts an upload with part numbers up to 10000 *)
+Lemma listed_all : forall c h, (forall n, In n (map fst h) -> n <= 10000) -> listed (dir_of c h) = dir_of c h.
+Proof.
+  intros c h Hr. unfold listed. apply takeN_all. unfold nlen.
+  rewrite <- (sort_by_number_length (dir_of c h)). rewrite (sorted_dir_is_parts c h Hr). rewrite map_length.
+  assert (Hb : forall x, In x (parts_of h) -> 0 <= fst x /\ fst x <= 10000).
+  { intros x Hx. split; [lia|]. apply Hr. apply parts_of_numbers. apply in_map. exact Hx. }
+  pose proof (ascending_length (parts_of h) 0 10000 (parts_of_ascending h) Hb). unfold max_part_id. lia.
+Qed.
+
+(* the parts ready for assembly (listed, then sorted by number) are the parts in ascending order *)
+Lemma complete_entries : forall c h, (forall n, In n (map fst h) -> n <= 10000) ->
+  sort_by_number (listed (dir_of c h)) = map (enc c) (parts_of h).
+Proof. intros c h Hr. rewrite (listed_all c h Hr). apply sorted_dir_is_parts. exact Hr. Qed.
+
+Lemma complete_suffix : forall c h, (forall n, In n (map fst h) -> n <= 10000) ->
+  forall e, In e (sort_by_number (listed (dir_of c h))) -> has_part_suffix (fst e) = true.
+Proof.
+  intros c h Hr e He. rewrite (complete_entries c h Hr) in He.
+  apply in_map_iff in He. destruct He as [p [<- Hp]]. simpl.
+  apply part_name_facts. apply Hr. apply parts_of_numbers. apply in_map. exact Hp.
+Qed.
+
+(* C28, c28_multipart_concat: the completed object is the concatenation of the uploaded parts in
+   ASCENDING PART-NUMBER order (the last upload of a number wins), for every history of part
+   uploads with numbers up to 10000 — unless a part is stored inline (-saveToFilerLimit) *)
 Theorem complete_concat : forall c h,
   0 < c_chunk c ->
   (forall n, In n (map fst h) -> n <= 10000) ->
-  trig_order (map fst h) = false ->
-  trig_limit c (dir_of c h) = false ->
   trig_inline (dir_of c h) = false ->
-  file_bytes (completed_file c (dir_of c h)) = concat (map snd (parts_of h)).
+  file_bytes (completed_file (dir_of c h)) = concat (map snd (parts_of h)).
 Proof.
-  intros c h Hc Hr T0 T1 T2.
-  assert (Hag : forall n m, In n (map fst h) -> In m (map fst h) -> agree n m).
-  { intros n m Hn Hm. apply name_order; auto. apply (trig_order_pairs (map fst h)); auto. }
-  rewrite (dir_of_parts c h Hag) in *.
-  assert (Hl : listed c (map (enc c) (parts_of h)) = map (enc c) (parts_of h)).
-  { unfold listed. apply takeN_all. unfold trig_limit in T1. apply N.ltb_ge in T1. unfold nlen. exact T1. }
-  assert (Hs : forall e, In e (listed c (map (enc c) (parts_of h))) -> has_part_suffix (fst e) = true).
-  { rewrite Hl. intros e He. apply in_map_iff in He. destruct He as [p [<- Hp]]. simpl.
-    assert (In (fst p) (map fst h)).
-    { assert (G : forall h l x, In x (map fst (fold_left parts_step h l)) -> In x (map fst h) \/ In x (map fst l)).
-      { induction h0 as [|q h0 IH]; intros l x Hx; simpl in *; auto.
-        destruct (IH _ _ Hx) as [I|I]; auto. unfold parts_step in I.
-        destruct (parts_put_numbers _ _ _ _ I) as [->|I']; auto. }
-      destruct (G h [] (fst p) (in_map fst _ _ Hp)) as [I|[]]. exact I. }
-    apply part_name_facts. auto. }
-  destruct (complete_is_listing_concat c _ Hs) as [_ E]. rewrite E, Hl.
-  rewrite map_map. f_equal.
+  intros c h Hc Hr T.
+  destruct (complete_is_listing_concat _ (complete_suffix c h Hr)) as [_ E]. rewrite E.
+  rewrite (complete_entries c h Hr). rewrite map_map. f_equal.
   apply map_ext_in. intros p Hp. unfold entry_bytes, enc. simpl.
-  destruct (store_body_chunks c (snd p) Hc (trig_inline_enc c _ T2 p Hp)) as [_ [_ S]]. exact S.
+  assert (Hi : is_inline (store_body c (snd p)) = false).
+  { destruct (is_inline (store_body c (snd p))) eqn:Ei; auto. exfalso.
+    assert (existsb (fun e => is_inline (snd e)) (dir_of c h) = true).
+    { apply existsb_exists. exists (enc c p). split; [|exact Ei].
+      apply (dir_of_mem c h Hr). apply in_map. exact Hp. }
+    unfold trig_inline in T. congruence. }
+  destruct (store_body_chunks c (snd p) Hc Hi) as [_ [_ S]]. exact S.
 Qed.
